@@ -24,7 +24,11 @@ func sqrtCase(c *Ctx, xo *Opnd, x *Dec, prec uint32, mode uint8, pre int) {
 		c.NonTrivial()
 	}
 	if msg := judgeFull(o, pv, isNaN, exp, false); msg != "" {
-		c.Fail(key(), msg)
+		if pre == preFresh {
+			c.FailT(key(), msg, func() string { return goTestArith("Sqrt", []string{"x"}, []*Opnd{xo}, prec, mode, exp, false) })
+		} else {
+			c.Fail(key(), msg)
+		}
 		return
 	}
 	if pv == nil {
